@@ -17,7 +17,7 @@ import (
 func init() {
 	register(Property{ID: "C36", Level: "other", Run: runC36,
 		Technique: "static analysis: write-sequence shape of metrics.tags/metric/metricFloat, sanitizer/origin classification of every label value at every tags() call site, sibling agreement between metric names, item fields and data sources (go/ssa)",
-		Text:      "Decides: (1) metrics.metric/metricFloat write name, labels, ' ', strconv decimal of the value, '\\n' in this order; tags writes {k=\"v\",...}; every metric name and label key at every call site is a constant of the Prometheus grammar; every direct write to the output is a '#' comment line or an empty line; (2) every label value is either escaped in tags (\\\\, \\\", \\n — tier 1) or, at every call site, safe by construction (constant, uuid, strconv, enum-typed constant, key of a map filled with such) — otherwise an entity string (path name, session path, remote address) reaches the exposition verbatim; (3) faithfulness: the value of each sample is a direct conversion of a field of the same item the labels are taken from, the metric name ends with the snake_case of that field (one tabled exception), and the metric prefix agrees with the server/list method the items were obtained from. Not decided: that API items themselves hold the entity's counters (producers), numeric formatting inside strconv.",
+		Text:      "Decides: (1) metrics.metric/metricFloat write name, labels, ' ', strconv decimal of the value, '\\n' in this order; tags writes {k=\"v\",...}; every metric name and label key at every call site is a constant of the Prometheus grammar; every direct write to the output is a '#' comment line or an empty line; (2) every label value is either escaped in tags (\\\\, \\\", \\n — tier 1) or, at every call site, safe by construction (constant, uuid, strconv, enum-typed constant, key of a map filled with such) — otherwise an entity string (path name, session path, remote address) reaches the exposition verbatim; (3) faithfulness: the value of each sample is a direct conversion of a field of the same item the labels are taken from, the metric name ends with the snake_case of that field (one tabled exception), and the metric prefix agrees with the server/list method the items were obtained from; a sample that is a per-item aggregate (count map read with a label value as key) reads an accumulator whose keys are all taken from the labelled item, that nothing else can fill, and that is re-made or cleared on every control-flow path from an insertion through the next item to the next sample read. Not decided: that API items themselves hold the entity's counters (producers), numeric formatting inside strconv.",
 		Note:      "trusted: go/types+go/ssa; strconv.FormatInt/FormatFloat output; uuid.String; metrics.sortedKeys returns the keys of its argument"})
 	addMutants(
 		Mutant{"C36", "sent-counter-reports-received", "internal/metrics/metrics.go",
@@ -183,7 +183,7 @@ func runC36(c *Ctx) {
 	if p == nil {
 		return
 	}
-	c.Explain = "E3/E7 on the write sequences of metrics.metric, metricFloat and tags; E5 classification of every value of every map literal passed to tags (24 sites) with tier 1 = escaping inside tags; closed grammar checks of constant metric names / label keys / comment lines; E7 sibling agreement: metric name suffix = snake_case(field), item root shared by labels and value, metric prefix = server field + list method. " +
+	c.Explain = "E3/E7 on the write sequences of metrics.metric, metricFloat and tags; E5 classification of every value of every map literal passed to tags (24 sites) with tier 1 = escaping inside tags; closed grammar checks of constant metric names / label keys / comment lines; E7 sibling agreement: metric name suffix = snake_case(field), item root shared by labels and value, metric prefix = server field + list method; C36.faithful.aggregate_scope: for the map-count samples (paths_readers) who-may-fill enumeration of the accumulator, origin of every inserted key in the labelled item, and a reset-avoiding reachability walk insertion -> next item -> sample read. " +
 		"Not decided: the producers of the API items (that counters are the entity's), number formatting."
 	c.Assume = []string{
 		"strconv.FormatInt(base 10)/FormatFloat produce valid Prometheus sample values",
@@ -477,7 +477,7 @@ func itemRoot(v ssa.Value) (root ssa.Value, field string) {
 }
 
 func (c *Ctx) c36Sites(p *Prog, escaped bool) {
-	nTags, nMetric, nSrc, nName := 0, 0, 0, 0
+	nTags, nMetric, nSrc, nName, nAgg := 0, 0, 0, 0, 0
 	entity := map[string]bool{}
 	var firstEntityPos token.Pos
 	for _, fn := range p.ModFuncs() {
@@ -565,6 +565,8 @@ func (c *Ctx) c36Sites(p *Prog, escaped bool) {
 					}
 				}
 				c.Check("C36.faithful.same_item", fname+": "+key+" sample is the count for the labelled key", okk, p.Pos(mc.Pos()), desc(a[3]))
+				nAgg++
+				c.c36AggregateScope(p, fn, fname, key, mc, lk, info.roots)
 				continue
 			}
 			root, field := itemRoot(a[3])
@@ -619,6 +621,7 @@ func (c *Ctx) c36Sites(p *Prog, escaped bool) {
 	c.Floor("C36.sites.metric", nMetric, 300)
 	c.Floor("C36.faithful.name", nName, 140)
 	c.Floor("C36.faithful.source", nSrc, 130)
+	c.Floor("C36.faithful.aggregate_scope", nAgg, 1)
 	var es []string
 	for e := range entity {
 		es = append(es, e)
